@@ -820,6 +820,13 @@ def plan_c16(run_seed):
             if not cfg["anon"] and t.chance(0.25):
                 kind = t.weighted([("good", 4), ("missing", 1), ("noattr", 1), ("raises", 2)])
                 e["pulses"] = {"mod": "%s_%d" % (modbase, i), "relative": t.chance(0.6), "kind": kind, "j": t.randrange(2)}
+        if t.chance(0.12) and e["prog"]["lets"]:
+            # unusual but lexically legal: an integer let that is 0 or negative (it may be a
+            # slice step, a size, an index, a count)
+            ints = [x for x in e["prog"]["lets"] if isinstance(x[1], int)]
+            if ints:
+                t.choice(ints)[1] = t.choice([0, 0, -1, -2])
+                e["exec"] = False
         if t.chance(0.12):
             # unusual but lexically legal: a negative loop or subcircuit count
             loops = [x for x in progast.all_statements(e["prog"]) if x["k"] in ("loop", "sub")]
@@ -1306,7 +1313,7 @@ def plan_c10(run_seed):
         O2 = {}
         for name, v in prog["lets"]:
             if t.chance(0.6):
-                O2[name] = t.choice(gen.INT_VALUES) if isinstance(v, int) else t.choice(gen.FLOAT_VALUES)
+                O2[name] = t.choice(gen.INT_VALUES) if (isinstance(v, int) and not t.chance(0.2)) else t.choice(gen.FLOAT_VALUES)
         if O2 == O:
             O2 = {}
         seq_ov = [1 if t.chance(0.4) else 0 for _ in seqs]
